@@ -158,15 +158,22 @@ impl Workspace {
         let checkpoint_id = Uuid::new_v4().to_string();
         let label = label.into();
         let created_at_ms = now_ms();
+        // Resolve and validate every path against the workspace root before touching the
+        // checkpoint store, so a refused request leaves nothing behind.
+        let mut resolved = Vec::with_capacity(files.len());
+        for path in files {
+            let rel = self.to_relative(path)?;
+            resolved.push((self.root.join(&rel), rel));
+        }
+
         let checkpoint_root = self.checkpoints_dir.join(session_id).join(&checkpoint_id);
         let files_root = checkpoint_root.join("files");
         fs::create_dir_all(&files_root)?;
 
         let mut entries = Vec::new();
 
-        for path in files {
-            let rel = self.to_relative(path)?;
-            let dest = files_root.join(&rel);
+        for (path, rel) in &resolved {
+            let dest = files_root.join(rel);
 
             if path.exists() {
                 if let Some(parent) = dest.parent() {
@@ -290,9 +297,20 @@ impl Workspace {
         } else {
             self.root.join(path)
         };
-        abs.strip_prefix(&self.root)
+        let rel = abs
+            .strip_prefix(&self.root)
             .map(|p| p.to_path_buf())
-            .map_err(|_| io::Error::new(io::ErrorKind::InvalidInput, "path outside workspace"))
+            .map_err(|_| io::Error::new(io::ErrorKind::InvalidInput, "path outside workspace"))?;
+        if rel
+            .components()
+            .any(|component| matches!(component, Component::ParentDir))
+        {
+            return Err(io::Error::new(
+                io::ErrorKind::InvalidInput,
+                "path escapes workspace root",
+            ));
+        }
+        Ok(rel)
     }
 
     fn safe_join(&self, rel: &Path) -> io::Result<PathBuf> {
